@@ -266,8 +266,8 @@ type decStats struct {
 var stats = decStats{exOverread: map[string]string{}, exEmpty: map[string]string{}, exQuirk: map[string]string{}}
 
 // kinds whose decoder is known to read into the spare capacity of src on
-// malformed input (recorded as an observation, not a violation)
-var overreadTolerated = map[string]bool{"dbp32": true, "dlba": true, "dba": true, "dba_flba": true}
+// malformed input (recorded as an observation, not a violation): none since b47fdb3
+var overreadTolerated = map[string]bool{}
 
 // tieStream compares Go with its model and evaluates the hard checks on one
 // stream.  Returns false when something was reported.
@@ -300,25 +300,13 @@ func (k *checker) tieStream(kind string, width int, stream []byte, what string, 
 		if kind == "dbp64" {
 			kk = "64"
 		}
-		if q := c.Ask(fmt.Sprintf("c04.go_delta_quirk %d %s %s", sections, kk, core.Hexs(stream))); q == "1" || q == "2" {
+		if q := c.Ask(fmt.Sprintf("c04.go_delta_quirk %d %s %s", sections, kk, core.Hexs(stream))); q == "1" {
 			stats.quirks++
-			if _, seen := stats.exQuirk[kind+q]; !seen {
-				why := "a mini-block bit width above the width of the type"
-				if q == "2" {
-					why = "bytes after the last suffix"
-				}
-				stats.exQuirk[kind+q] = fmt.Sprintf("%s, %s, stream %s: this build returns %s, the portable code (and its model) %s", kind, why, core.Hexs(stream), core.Trunc(g.vals, 200), core.Trunc(m.vals, 200))
+			if _, seen := stats.exQuirk[kind]; !seen {
+				stats.exQuirk[kind] = fmt.Sprintf("%s, a mini-block bit width above the width of the type, stream %s: this build returns %s, the portable code (and its model) %s", kind, core.Hexs(stream), core.Trunc(g.vals, 200), core.Trunc(m.vals, 200))
 			}
 			return true
 		}
-	}
-	if g != m && g.status == "ok" && m.status == "err" && c.Res.Variant != "purego" && (kind == "dba" || kind == "dba_flba") {
-		// validatePrefixAndSuffixLengthValuesAVX2 accepts prefixes longer than the previous value
-		stats.quirks++
-		if _, seen := stats.exQuirk[kind+"v"]; !seen {
-			stats.exQuirk[kind+"v"] = fmt.Sprintf("%s, stream %s: the portable code (and its model) return an error, this build returns %s", kind, core.Hexs(stream), core.Trunc(g.vals, 200))
-		}
-		return true
 	}
 	if g != m {
 		if k.ok {
@@ -692,7 +680,7 @@ func reportDecoderStats(c *core.Ctx) {
 		return
 	}
 	c.Note("Go decoders vs their Gallina models (Enc/GoDec*.v): %d streams (Go's own bytes; truncations, bit flips, lying counts, empty runs, trailing bytes derived from them; slices with cap = len): Go ok %d, error %d, no panic; outcome and values equal to the model's on all of them unless a corr:C04.go_decoder.* mismatch is listed", stats.streams, stats.goOK, stats.goErr)
-	c.Note("Go vs specification decoder on those streams: Go accepts / specification rejects %d (Go tolerates truncated DELTA mini-blocks and bit-width lists), Go rejects / specification accepts %d (Go's header checks, 10-byte varints, run counts above MaxInt32), both accept with different values only when an empty run is present: %d", stats.lenient, stats.strict, stats.emptyRuns)
+	c.Note("Go vs specification decoder on those streams: Go accepts / specification rejects %d (Go tolerates a last DELTA mini-block without padding and a short bit-width list), Go rejects / specification accepts %d (Go's header checks, 10-byte varints, run counts above MaxInt32), both accept with different values only when an empty run is present: %d", stats.lenient, stats.strict, stats.emptyRuns)
 	c.Note("foreign streams (conforming RLE/bit-packed streams with run-length runs of any length, levels / int32 / booleans): %d decoded by Go to the values they were built from; %d of them cut inside their last bit-packed block: Go returns an error (with and without spare capacity)", stats.foreign, stats.foreignCut)
 	for kind, ex := range stats.exEmpty {
 		c.Note("observation: a run header announcing 0 values is skipped by Go's %s decoder without reading a value, the format's grammar gives a run-length run its value: %s", kind, core.Trunc(ex, 500))
